@@ -392,7 +392,7 @@ func runC11(r *evid.Run) {
 	// ---- 1. SaveLoad on every state of the topology model -------------------------------------------
 	cfgs := []string{"MCTopology_a.cfg", "MCTopology_b.cfg"}
 	if r.Thorough() {
-		cfgs = append(cfgs, "MCTopology_c.cfg")
+		cfgs = append(cfgs, "MCTopology_d.cfg")
 	}
 	tracePath := filepath.Join(scratch, "trace.ndjson")
 	tf, _ := os.Create(tracePath)
